@@ -272,12 +272,16 @@ def mStep (m : MSt) (op : List String) (exts : List (List String)) (obs : Option
   | ["enc", act, addr, id] =>
     -- codec_roundtrip: what was marshalled must decode to the same action, address and id
     let toks := (obs.getD "").splitOn " "
-    let good := kv toks "ok" == some "1" && kv toks "act" == some act && kv toks "addr" == some addr && kv toks "id" == some id
-    -- the theorem's hypothesis: the id has no comma (ids are generated as 8 hex digits)
-    if good || hasComma (dec id) then (m, []) else
-      let c := hasComma (dec addr)
-      (m, [{ prop := "C18", sig := if c then "C18:codec-roundtrip:comma-in-address" else "C18:codec-roundtrip:comma-free-address",
-             what := s!"{act} address={addr} id={id} decodes as {obs.getD "-"}" }])
+    -- compares the action, the full address and the **full id**, byte for byte
+    let ok := kv toks "ok" == some "1"
+    let sameAct := kv toks "act" == some act
+    let sameAddr := kv toks "addr" == some addr
+    let sameId := kv toks "id" == some id
+    -- the theorem's hypothesis: the id has no comma
+    if (ok && sameAct && sameAddr && sameId) || hasComma (dec id) then (m, []) else
+      let which := if !ok then "rejected" else if !sameId then "id-changed" else if !sameAddr then "address-changed" else "action-changed"
+      (m, [{ prop := "C18", sig := s!"C18:codec-roundtrip:{which}",
+             what := s!"{act} address={addr} id={id} ({(dec id).length} bytes) decodes as {obs.getD "-"}" }])
   | ["adv", d] =>
     let m := { m with now := m.now + (d.toNat?.getD 0 : Nat) }
     (m, m.checkObs obs)
